@@ -554,3 +554,73 @@ Proof.
   - intros a b [<-|[<-|[<-|[]]]] [<-|[<-|[<-|[]]]]; cbn; intros H; try discriminate H; split; reflexivity.
   - intros n k H. apply has_file_in in H as (sh & [<-|[<-|[<-|[]]]] & Hf); cbn in Hf; inversion Hf; subst. reflexivity.
 Qed.
+
+(** ------------------------------------------------------------------ discovery: what the walk reports *)
+Fixpoint node_ind' (P : node -> Prop) (Hf : P NFile) (Ho : P NOther)
+  (Hd : forall ch, Forall (fun p => P (snd p)) ch -> P (NDir ch)) (n : node) : P n :=
+  match n with
+  | NFile => Hf
+  | NOther => Ho
+  | NDir ch => Hd ch ((fix go (l : list (str * node)) : Forall (fun p => P (snd p)) l :=
+                         match l with
+                         | [] => Forall_nil _
+                         | p :: r => Forall_cons p (node_ind' P Hf Ho Hd (snd p)) (go r)
+                         end) ch)
+  end.
+
+Definition walk_children (rel : list str) (ch : list (str * node)) : list (list str * bool) :=
+  (fix go (l : list (str * node)) : list (list str * bool) :=
+     match l with
+     | [] => []
+     | (nm, c) :: r => walk nm (rel ++ [nm]) c ++ go r
+     end) ch.
+
+Lemma walk_children_cons rel nm c r : walk_children rel ((nm, c) :: r) = walk nm (rel ++ [nm]) c ++ walk_children rel r.
+Proof. reflexivity. Qed.
+
+Lemma walk_dir e rel ch : walk e rel (NDir ch) =
+  match repo_kind e ch with Some b => [(rel, b)] | None => walk_children rel ch end.
+Proof. reflexivity. Qed.
+
+Lemma walk_prefix : forall n e pre, walk e pre n = map (fun h => (pre ++ fst h, snd h)) (walk e [] n).
+Proof.
+  induction n as [| |ch IH] using node_ind'; intros e pre; try reflexivity.
+  rewrite !walk_dir. destruct (repo_kind e ch) as [b|]; [cbn; rewrite app_nil_r; reflexivity|].
+  induction ch as [|[nm c] r IHr]; [reflexivity|].
+  inversion IH as [|? ? Hc Hr]; subst. cbn [snd] in Hc.
+  rewrite !walk_children_cons, map_app, (IHr Hr). f_equal.
+  rewrite (Hc nm (pre ++ [nm])), (Hc nm ([] ++ [nm])), map_map. apply map_ext. intros h. cbn. rewrite <- app_assoc. reflexivity.
+Qed.
+
+Lemma in_walk_children q b ch :
+  In (q, b) (walk_children [] ch) <-> exists nm c q', q = nm :: q' /\ In (nm, c) ch /\ In (q', b) (walk nm [] c).
+Proof.
+  induction ch as [|[nm c] r IH].
+  - cbn. split; [intros []|intros (nm & c & q' & _ & [] & _)].
+  - rewrite walk_children_cons, in_app_iff, IH. rewrite (walk_prefix c nm ([] ++ [nm])). split.
+    + intros [H|(nm' & c' & q' & Hq & Hin & Hw)].
+      * apply in_map_iff in H as (h & Hh & Hin). inversion Hh; subst. exists nm, c, (fst h).
+        split; [reflexivity|]. split; [left; reflexivity|]. destruct h; exact Hin.
+      * exists nm', c', q'. repeat split; auto. right. exact Hin.
+    + intros (nm' & c' & q' & Hq & [Hin|Hin] & Hw).
+      * inversion Hin; subst. left. apply in_map_iff. exists (q', b). split; [reflexivity|exact Hw].
+      * right. exists nm', c', q'. auto.
+Qed.
+
+(** The specification of discoverRoot's walk, by recursion on the reported path: a directory that is a
+    repository is reported itself and NOTHING below it (fs.SkipDir); otherwise what is reported below a
+    directory is what is reported below its children, with the child's name in front; files report nothing. *)
+Theorem walk_spec : forall e ch q b,
+  In (q, b) (walk e [] (NDir ch)) <->
+  match repo_kind e ch with
+  | Some b' => q = [] /\ b = b'
+  | None => exists nm c q', q = nm :: q' /\ In (nm, c) ch /\ In (q', b) (walk nm [] c)
+  end.
+Proof.
+  intros e ch q b. rewrite walk_dir. destruct (repo_kind e ch) as [b'|].
+  - cbn. split; [intros [H|[]]; inversion H; auto|intros [-> ->]; left; reflexivity].
+  - apply in_walk_children.
+Qed.
+
+Lemma walk_nondir e rel : walk e rel NFile = [] /\ walk e rel NOther = [].
+Proof. split; reflexivity. Qed.
